@@ -158,8 +158,21 @@ uncompressed_name(const char *src_name, const size_t src_len)
 #endif
 	}
 
-	if (new_len == 0 && custom_suffix != NULL)
-		new_len = test_suffix(custom_suffix, src_name, src_len);
+	// The custom suffix is used if no built-in suffix matched. It is
+	// also used if it matched and is at least as long as the built-in
+	// suffix that matched: "xz -S .txz foo" and "xz -S .tar.xz foo" create
+	// foo.txz and foo.tar.xz, so "xz -d" with the same -S must give "foo"
+	// back instead of "foo.tar". A shorter custom suffix doesn't override
+	// a built-in one: "foo.xz" is still "foo" with "-S z".
+	if (custom_suffix != NULL) {
+		const size_t custom_len = test_suffix(custom_suffix,
+				src_name, src_len);
+		if (custom_len != 0 && (new_len == 0
+				|| custom_len <= new_len)) {
+			new_suffix = "";
+			new_len = custom_len;
+		}
+	}
 
 	if (new_len == 0) {
 		message_warning(_("%s: Filename has an unknown suffix, "
